@@ -254,6 +254,19 @@ def runCalls (f : Fetcher) : Cache → List Call → List Result
     let r := getImage f call.opts c call.url call.forced call.orientation
     r :: runCalls f r.cache rest
 
+/-- The cache after a list of requests. -/
+def finalCache (f : Fetcher) : Cache → List Call → Cache
+  | c, [] => c
+  | c, call :: rest => finalCache f (getImage f call.opts c call.url call.forced call.orientation).cache rest
+
+/-- Documents rendered one after the other with one image cache (`options['cache']` handed to every render): a
+document is the list of image requests its box generation makes (`html.py::handle_img` / `handle_embed` /
+`handle_object`: one `get_image_from_uri(url=src, forced_mime_type=type, orientation=style['image_orientation'])` per
+element, in document order), each with the image options of its render. -/
+def runDocs (f : Fetcher) : Cache → List (List Call) → List (List Result)
+  | _, [] => []
+  | c, d :: rest => runCalls f c d :: runDocs f (finalCache f c d) rest
+
 /-- The result of a call on an empty cache. -/
 def coldResult (f : Fetcher) (call : Call) : Result :=
   getImage f call.opts [] call.url call.forced call.orientation
